@@ -386,6 +386,16 @@ done:
 		doneCh := make(chan [3]error, 1)
 		go func() {
 			var r [3]error
+			defer func() { // a panic of the library here is an outcome to report, not the end of the run
+				if p := recover(); p != nil {
+					for i := range r {
+						if r[i] == nil {
+							r[i] = fmt.Errorf("panic: %v", p)
+						}
+					}
+					doneCh <- r
+				}
+			}()
 			r[0] = conn.WriteControl(ws.PingMessage, []byte("late"), time.Time{})
 			r[1] = conn.WriteMessage(ws.TextMessage, []byte("late"))
 			_, r[2] = conn.NextWriter(ws.BinaryMessage)
@@ -448,7 +458,14 @@ func c15Timeout(c *h.Ctx, server bool, nframes int, extra bool) {
 	conn := ws.VerifNewConn(tc, server, 0, c15B, false)
 	dataRun, payload := c15DataRun(server, nframes, extra)
 	dataDone := make(chan error, 1)
-	go func() { dataDone <- dataRun(conn) }()
+	go func() {
+		defer func() {
+			if p := recover(); p != nil {
+				dataDone <- fmt.Errorf("panic: %v", p)
+			}
+		}()
+		dataDone <- dataRun(conn)
+	}()
 	var first *parkedWrite
 	select {
 	case first = <-tc.parked:
@@ -462,7 +479,14 @@ func c15Timeout(c *h.Ctx, server bool, nframes int, extra bool) {
 	c.Hold(errA != nil && isNet && ne.Timeout(), "C15.timeout.returns_timeout", in, fmt.Sprint(errA), "a timeout error")
 	// B: generous deadline; it must WAIT: no transport write may appear while the data frame is still stalled
 	doneB := make(chan error, 1)
-	go func() { doneB <- conn.WriteControl(ws.PingMessage, []byte("B"), time.Now().Add(5*time.Second)) }()
+	go func() {
+		defer func() {
+			if p := recover(); p != nil {
+				doneB <- fmt.Errorf("panic: %v", p)
+			}
+		}()
+		doneB <- conn.WriteControl(ws.PingMessage, []byte("B"), time.Now().Add(5*time.Second))
+	}()
 	intruded := false
 	select {
 	case pw := <-tc.parked:
